@@ -56,8 +56,85 @@ def cases(draw):
     }
 
 
+@st.composite
+def text_cases(draw):
+    """two shapes the main generator does not produce: (a) UseFunction on a procedure with a bare `return` (an early exit, or
+    the last statement) while a client contains the matching fall-through code; (b) MethodObject on a function whose
+    parameter names also occur inside string literals of its body (messages, dictionary keys, format strings)"""
+    kind = draw(st.sampled_from(["use_function_procedure", "method_object_strings"]))
+    pn = draw(st.sampled_from(["count", "n", "value"]))
+    if kind == "use_function_procedure":
+        shape = draw(st.sampled_from(["early_guard", "early_in_loop", "trailing"]))
+        if shape == "early_guard":
+            fn = "def report(%s):\n    if %s <= 0:\n        return\n    print('value', %s)\n" % (pn, pn, pn)
+            client = "    if v <= 0:\n        pass\n    print('value', v)\n"
+        elif shape == "early_in_loop":
+            fn = "def report(%s):\n    for i in range(%s):\n        if i:\n            return\n        print('step', i)\n    print('done', %s)\n" % (pn, pn, pn)
+            client = "    for i in range(v):\n        if i:\n            pass\n        print('step', i)\n    print('done', v)\n"
+        else:
+            fn = "def report(%s):\n    print('value', %s)\n    return\n" % (pn, pn)
+            client = "    print('value', v)\n    pass\n"
+        style = draw(st.sampled_from(["import lib\n", "from lib import report\n"]))
+        files = {"lib.py": fn + "report(3)\n", "use.py": style + "for v in (3, -2, 0, 5):\n" + client, "main.py": "import lib\nimport use\n"}
+        return {"text_case": kind, "files": files, "target": "report"}
+    msg = draw(st.sampled_from(["'%s must not be negative'" % pn, "f'{%s} is the %s'" % (pn, pn), "'%s'" % pn]))
+    fn = "def describe(%s, label):\n    if %s < 0:\n        raise ValueError(%s)\n    info = {'%s': %s, 'label': '%s of %%s' %% label}\n    return sorted(info.items()), %s\n" % (pn, pn, msg, pn, pn, pn, msg)
+    files = {"lib.py": fn + "print(describe(2, 'x'))\n", "use.py": "import lib\nprint(lib.describe(5, 'y')[0][0][0])\ntry:\n    lib.describe(-1, 'z')\nexcept ValueError as e:\n    print(e)\n", "main.py": "import lib\nimport use\n"}
+    return {"text_case": kind, "files": files, "target": "describe"}
+
+
+def _evaluate_text(case, env):
+    from rope.base import exceptions as rex
+    from rope.base.project import Project
+    from rope.refactor.method_object import MethodObject
+    from rope.refactor.usefunction import UseFunction
+
+    from props.c05_move import _apply, _show as show5
+
+    out = core.Outcome()
+    files = case["files"]
+    base = runner.run(files, "main.py")
+    if base[1]:
+        raise core.HarnessError("generated project raises %s\n%s" % (base[1], runner.LAST_TB))
+    out.labels["kind:" + case["text_case"]] += 1
+    root = core.fresh_dir("c17t")
+    fsmodel.write_tree(root, files)
+    project = Project(root, ropefolder=None)
+    try:
+        off = files["lib.py"].index("def " + case["target"]) + 4
+        out.evals += 1
+        try:
+            if case["text_case"] == "use_function_procedure":
+                changes = UseFunction(project, project.get_file("lib.py"), off).get_changes()
+            else:
+                changes = MethodObject(project, project.get_file("lib.py"), off).get_changes("_Describe")
+        except rex.RopeError:
+            out.refused += 1
+            out.labels["refused:" + case["text_case"]] += 1
+            return out
+        except Exception as e:
+            out.notes["crashed:%s (see C09)" % type(e).__name__] += 1
+            return out
+        new_files, moves = _apply(files, changes)
+        where = "%s\n%s" % (case["text_case"], show5(files, new_files, moves))
+        bad = runner.compiles(new_files)
+        if bad:
+            out.violation("C17:%s:does_not_compile" % case["text_case"], "%s\n%s" % (bad[0], where))
+            return out
+        got = runner.run(new_files, "main.py")
+        if got != base:
+            out.violation("C17:%s:behaviour%s" % (case["text_case"], ":" + got[1] if got[1] else ""), "output %r/%s -> %r/%s\n%s" % (base[0][-160:], base[1], got[0][-160:], got[1], where))
+            return out
+        if new_files != files:
+            out.nontrivial.add(("t", case["text_case"]))
+    finally:
+        project.close()
+        core.rmtree(root)
+    return out
+
+
 def strategy(tier):
-    return cases()
+    return st.one_of(*([cases()] * 12 + [text_cases()]))
 
 
 def render(case):
@@ -158,6 +235,8 @@ def render(case):
 
 
 def describe(case):
+    if case.get("text_case"):
+        return {"text_case": case["text_case"], "lib.py": case["files"]["lib.py"], "use.py": case["files"]["use.py"]}
     f = render(case)
     return {"refactoring": case["refactoring"], "lib.py": f["lib.py"], "use.py": f["use.py"]}
 
@@ -213,6 +292,8 @@ def evaluate(case, env):
     from rope.refactor.method_object import MethodObject
     from rope.refactor.usefunction import UseFunction
 
+    if case.get("text_case"):
+        return _evaluate_text(case, env)
     out = core.Outcome()
     files = render(case)
     base = runner.run(files, "main.py")
